@@ -371,7 +371,7 @@ def original_text_for(
             t[:] = [s[t.pop("_original_start") : t.pop("_original_end")]]
 
     matchExpr.set_parse_action(extractText)
-    matchExpr.ignoreExprs = expr.ignoreExprs
+    matchExpr.ignoreExprs = expr.ignoreExprs[:]
     matchExpr.suppress_warning(Diagnostics.warn_ungrouped_named_tokens_in_collection)
     return matchExpr
 
